@@ -3,6 +3,7 @@ package props
 import (
 	"fmt"
 	"testing"
+	"time"
 
 	header "github.com/celestiaorg/go-header"
 	"pgregory.net/rapid"
@@ -25,9 +26,10 @@ type C02Scenario struct {
 	Len         int      `json:"len"`
 	Spans       []uint64 `json:"spans"`
 	Muts        []C02Mut `json:"muts"`
+	AcceptAll   bool     `json:"accept_all,omitempty"` // every header's type-level Verify accepts anything
 }
 
-var c02Kinds = []string{"gap", "dup", "swap", "nil", vh.AdvForged, vh.AdvForked, vh.AdvWrongChain, vh.AdvTimeRegress, vh.AdvFuture, vh.AdvBadValidate, "below"}
+var c02Kinds = []string{"gap", "dup", "swap", "nil", vh.AdvForged, vh.AdvForked, vh.AdvWrongChain, vh.AdvTimeRegress, vh.AdvFuture, vh.AdvBadValidate, "below", "below_late"}
 
 func genC02(t *rapid.T) C02Scenario {
 	s := C02Scenario{
@@ -37,6 +39,7 @@ func genC02(t *rapid.T) C02Scenario {
 		Gap:         rapid.SampledFrom([]uint64{1, 1, 1, 2, 3, 6}).Draw(t, "gap"),
 		Spans:       rapid.SliceOfN(rapid.SampledFrom([]uint64{0, 1, 3, 1 << 40}), 1, 4).Draw(t, "spans"),
 	}
+	s.AcceptAll = rapid.IntRange(0, 3).Draw(t, "acceptall") == 0
 	switch rapid.IntRange(0, 9).Draw(t, "lenclass") {
 	case 0:
 		s.Len = 0
@@ -89,6 +92,13 @@ func c02Build(s C02Scenario) (tr *vh.Header, in []*vh.Header) {
 			in[p] = nil
 		case "below":
 			in[p] = c.At(1 + uint64(p)%s.TrustedH)
+		case "below_late":
+			// at or below the trusted height, but with a later time (so only the height check can refuse it)
+			b := c.At(1 + uint64(p)%s.TrustedH).Clone()
+			if tr != nil {
+				b.T = tr.T + 1_000_000_000
+			}
+			in[p] = b.Seal()
 		default:
 			if in[p] != nil {
 				in[p] = vh.Variant(in[p], m.Kind, uint32(i+1))
@@ -101,6 +111,22 @@ func c02Build(s C02Scenario) (tr *vh.Header, in []*vh.Header) {
 func runC02(t *testing.T, s C02Scenario) (res Result) {
 	bubble(t, func() {
 		tr, in := c02Build(s)
+		now := time.Now()
+		if s.AcceptAll {
+			// a permissive header type: only the mandatory checks and the adjacency rule decide
+			accept := func(*vh.Header) error { return nil }
+			if tr != nil {
+				tr = tr.Clone().Seal()
+				tr.VerifyFn = accept
+			}
+			for i, x := range in {
+				if x != nil {
+					c := x.Clone().Seal()
+					c.VerifyFn = accept
+					in[i] = c
+				}
+			}
+		}
 
 		// reference loop written from the statement; header.Verify is the step predicate
 		k := 0
@@ -108,7 +134,9 @@ func runC02(t *testing.T, s C02Scenario) (res Result) {
 			defer func() { recover() }() // a panic in the reference run is judged on the real call below
 			prev := tr
 			for i, x := range in {
-				if header.Verify(prev, x) != nil {
+				// the step predicate is the reference model of C01 (mandatory conditions, then the type's own
+				// Verify), not header.Verify itself, so that a defect inside Verify cannot hide in the oracle
+				if x == nil || prev == nil || len(c01Model(prev, x, now, header.VerifClockDrift())) > 0 || prev.Verify(x) != nil {
 					break
 				}
 				if i > 0 && x.Height() != prev.Height()+1 {
